@@ -518,3 +518,6 @@ M("m-g15-regress", SG, """    while op != "~=" and len(splitted) > 2 and splitte
         # not for "~=", where the number of segments is significant
         splitted.pop()
 """, "", fire=["C02"])
+M("k-variable-rule", "markers/__init__.py", "|extras?", "|extra", fire=["C03"])
+M("k-variable-rule-dot", "markers/__init__.py", "|os[._]name", "|os_name", fire=["C03"])
+M("k-normalize-name", UT, '''return re.sub(r"[-_.]+", "-", name).lower()''', '''return re.sub(r"[-_.]", "-", name).lower()''', fire=["C03"])
